@@ -320,6 +320,7 @@ class Interp:
         env["__file__"] = file
         env["__fn__"] = fn["name"]
         env["__ret__"] = fn.get("ret") or ""
+        env["__self_ty__"] = (fn.get("self_ty") or "").split("<")[0].strip() or None
         try:
             return self.block(fn["body"], env)
         except Return as r:
